@@ -375,3 +375,29 @@ M.contract(P_SEP + ':parse_and_compute_source',
                result.instruction_info.instruction is ghost['parsed-instruction']
                and result.instruction_info.description is description,
            })
+
+
+# ---- lemma: the state of a ParseSource is a function of (orig, off, has-current-line)
+
+def lemma_state_is_a_function_of_the_offset(s1, s2):
+    return unchanged(s1, snap(s2))
+
+
+def _line_start_again(s, orig):
+    """The line-start conjunct of RI once more, stated as a test (so that the character before the line
+    becomes a piece of orig that the other state's pieces are aligned with).  Implied by RI: same formula."""
+    if s._current_line_number is None:
+        return True
+    k = len(orig) - len(s.source_string)
+    if k != 0:
+        if orig[k - 1:k] != NL:
+            return False
+    return True
+
+
+M.contract('contracts.C07_document:lemma_state_is_a_function_of_the_offset',
+           params=dict(s1=PARSE_SOURCE, s2=PARSE_SOURCE), ghosts=dict(orig=Str),
+           requires=lambda s1, s2, orig: RI(s1, orig) and RI(s2, orig) and off_of(s1, orig) == off_of(s2, orig)
+           and iff(has_line(s1), has_line(s2)) and _line_start_again(s1, orig) and _line_start_again(s2, orig),
+           ensures={'same-offset-same-state': lambda result: result},
+           raises_only=())
